@@ -26,6 +26,8 @@ from . import libfacts
 from .index import FuncInfo, FuncNode, Program, dotted
 from .report import Undecided
 
+SELF = ("sym", "self")
+
 NONE = ("const", None)
 TRUE = ("const", True)
 FALSE = ("const", False)
@@ -308,6 +310,13 @@ class Interp:
         path = path or Path()
         if env:
             path.env.update(env)
+        elif self.func is not None:
+            # a PRIVATE method generalised with defaulted parameters that no call site of the package supplies
+            # (`_reap(self, threshold=0)`) behaves, for its callers, as with those defaults
+            from . import util as _util
+
+            for k_, v_ in _util.unsupplied_defaults(self.program, self.func).items():
+                path.env.setdefault(k_, v_)
         self._whole = env is None
         try:
             return self.exec_block(self.func.node.body, path)
@@ -498,7 +507,113 @@ class Interp:
             v = self.attr_hook(self, path, base, attr, node)
             if v is not None:
                 return v
+        if base == SELF and self.func is not None and self.func.cls is not None and self._cur().name != "__init__":
+            alias = self._init_alias(self.func.cls, attr)
+            if alias is not None:
+                return alias
         return lv
+
+    # ---- fields bound once, at construction, to another name -------------------------------------------------
+    def _init_only_store(self, cls, attr):
+        """the `self.<attr> = value` statement when it is the ONLY store to an attribute of that name in the whole
+        package and a top-level statement of the __init__ of a class in cls's MRO; else None"""
+        prog = self.program
+        cache = prog.__dict__.setdefault("_init_only", {})
+        key = (cls.qual, attr)
+        if key in cache:
+            return cache[key]
+        cache[key] = None
+        stores = []
+        for m in prog.modules.values():
+            for n in ast.walk(m.tree):
+                if isinstance(n, ast.Attribute) and n.attr == attr and isinstance(n.ctx, (ast.Store, ast.Del)):
+                    stores.append(n)
+                if isinstance(n, ast.Call) and dotted(n.func) in ("setattr", "delattr", "object.__setattr__") and len(n.args) >= 2 and not (isinstance(n.args[1], ast.Constant) and n.args[1].value != attr):
+                    return None
+        if len(stores) != 1 or dotted(stores[0].value) != "self":
+            return None
+        for q in cls.mro:
+            c = prog.classes.get(q)
+            init = prog.lookup_method(c, "__init__") if c is not None else None
+            if init is None or init.cls is not c:
+                continue
+            for st in init.node.body:
+                if isinstance(st, ast.Assign) and len(st.targets) == 1 and st.targets[0] is stores[0]:
+                    cache[key] = (init, st.value)
+                elif isinstance(st, ast.AnnAssign) and st.target is stores[0] and st.value is not None:
+                    cache[key] = (init, st.value)
+        return cache[key]
+
+    def _init_alias(self, cls, attr, _depth=0):
+        """the term a field stands for when it is bound once, in __init__, to an attribute of another such field
+        (`self._run = self._meta.run_payload`) or to functools.partial over such values; else None"""
+        if _depth > 3:
+            return None
+        found = self._init_only_store(cls, attr)
+        if found is None:
+            return None
+        init, value = found
+        if not (isinstance(value, ast.Attribute) or (isinstance(value, ast.Call) and self.program.resolve(init.module, value.func) == "ext:functools.partial")):
+            return None
+        return self._init_term(cls, init, value, _depth)
+
+    def _init_term(self, cls, init, e, _depth):
+        prog = self.program
+        if isinstance(e, ast.Constant):
+            return ("const", e.value)
+        d = dotted(e)
+        if d and d.startswith("self.") and d.count(".") >= 1:
+            parts = d.split(".")[1:]
+            if self._init_only_store(cls, parts[0]) is None:
+                return None
+            t = self._init_alias(cls, parts[0], _depth + 1) or ("attr", SELF, parts[0])
+            for a in parts[1:]:
+                t = ("attr", t, a)
+            return t
+        if isinstance(e, ast.Name) and e.id in init.params():
+            # the field that keeps this constructor argument (directly or through super().__init__(arg))
+            return self._param_field(cls, init, e.id)
+        if d:
+            q = prog.resolve(init.module, e)
+            if q is not None and not (isinstance(e, ast.Name) and e.id in {n.id for n in ast.walk(init.node) if isinstance(n, ast.Name) and isinstance(n.ctx, ast.Store)}):
+                return ("glob", q)
+            return None
+        if isinstance(e, ast.Call) and prog.resolve(init.module, e.func) == "ext:functools.partial" and not any(isinstance(a, ast.Starred) for a in e.args) and all(k.arg for k in e.keywords):
+            args = [self._init_term(cls, init, a, _depth) for a in e.args]
+            kws = [(k.arg, self._init_term(cls, init, k.value, _depth)) for k in e.keywords]
+            if any(a is None for a in args) or any(v is None for _k, v in kws):
+                return None
+            return ("call", ("glob", "ext:functools.partial"), tuple(args), tuple(kws), 0)
+        return None
+
+    def _param_field(self, cls, init, pname, _depth=0):
+        prog = self.program
+        if _depth > 3:
+            return None
+        for st in init.node.body:
+            tv = None
+            if isinstance(st, ast.Assign) and len(st.targets) == 1:
+                tv = (st.targets[0], st.value)
+            elif isinstance(st, ast.AnnAssign) and st.value is not None:
+                tv = (st.target, st.value)
+            if tv and isinstance(tv[1], ast.Name) and tv[1].id == pname and isinstance(tv[0], ast.Attribute) and dotted(tv[0].value) == "self":
+                if self._init_only_store(cls, tv[0].attr) is not None:
+                    return ("attr", SELF, tv[0].attr)
+            if isinstance(st, ast.Expr) and isinstance(st.value, ast.Call) and isinstance(st.value.func, ast.Attribute) and st.value.func.attr == "__init__" and isinstance(st.value.func.value, ast.Call) and dotted(st.value.func.value.func) == "super":
+                mro = init.cls.mro
+                for q in mro[1:]:
+                    c = prog.classes.get(q)
+                    pinit = prog.lookup_method(c, "__init__") if c is not None else None
+                    if pinit is None:
+                        continue
+                    for i, a in enumerate(st.value.args):
+                        if isinstance(a, ast.Name) and a.id == pname and i < len(pinit.params()):
+                            return self._param_field(cls, pinit, pinit.params()[i], _depth + 1)
+                    for k in st.value.keywords:
+                        if isinstance(k.value, ast.Name) and k.value.id == pname and k.arg in pinit.params():
+                            return self._param_field(cls, pinit, k.arg, _depth + 1)
+                    break
+        return None
 
     def e_Subscript(self, node, path):
         states, raises = self.eval_seq([node.value, node.slice], path)
@@ -598,6 +713,9 @@ class Interp:
         for p, (l, r) in states:
             res = self.binop_hook(self, p, op, l, r, node) if self.binop_hook is not None else None
             if res is None:
+                if op == "+" and l[0] == "const" and r[0] == "const" and isinstance(l[1], str) and isinstance(r[1], str):
+                    out.append(("value", p, ("const", l[1] + r[1])))  # "\\" + special
+                    continue
                 out.append(("value", p, ("binop", op, l, r)))
                 continue
             for j, (kk, vv) in enumerate(res):
@@ -936,9 +1054,22 @@ class Interp:
         # tuple(x) of a value that certainly is a tuple is x itself
         if f == ("glob", "ext:builtins.tuple") and len(args) == 1 and not kwargs and self.type_of(args[0], path) is tuple:
             return [("value", path, args[0])]
+        # str(x) of a value that is text by construction (a text method, concatenation or %-formatting of text,
+        # json.dumps -- NOT merely annotated as str: an annotation is not enforced, and str(2) is not 2) is x itself
+        if f == ("glob", "ext:builtins.str") and len(args) == 1 and not kwargs and args[0][0] not in ("star", "const"):
+            if self.type_of(args[0], path, _ann=False) is str:
+                return [("value", path, args[0])]
+        # dict({...}) of a display is a fresh mapping with the same items
+        if f == ("glob", "ext:builtins.dict") and len(args) == 1 and not kwargs and args[0][0] == "dict":
+            return [("value", path, args[0])]
         # bool(c) of a comparison / boolean term / a value that certainly is a bool is that term
         if f == ("glob", "ext:builtins.bool") and len(args) == 1 and not kwargs and (args[0][0] in ("cmp", "boolop", "unop") or self.type_of(args[0], path) is bool):
             return [("value", path, args[0])]
+        # a module-level name bound once to functools.partial(g, <literals>):  _escape = partial(_escape_chars, specials=(",", " "))
+        if f[0] == "glob" and ":" in f[1] and not f[1].startswith("ext:") and f[1] not in self.program.functions and f[1] not in self.program.classes:
+            pt = self._module_partial(f[1])
+            if pt is not None:
+                f = pt
         # functools.partial(g, *a, **k)(*b, **l)  ==  g(*a, *b, **k, **l)
         if f[0] == "call" and f[1] == ("glob", "ext:functools.partial") and f[2] and f[2][0][0] != "star":
             return self.apply(f[2][0], tuple(f[2][1:]) + args, tuple(f[3]) + kwargs, path, node, awaited)
@@ -1112,7 +1243,7 @@ class Interp:
 
     BUILTIN_TYPES = {"tuple": tuple, "list": list, "dict": dict, "set": set, "frozenset": frozenset, "str": str, "int": int, "float": float, "bool": bool, "bytes": bytes}
 
-    def type_of(self, v, path, _depth=0):
+    def type_of(self, v, path, _depth=0, _text=0, _ann=True):
         """the builtin type a term certainly has (tuple for *args, dict for **kwargs, displays, constructor calls,
         constants, fields that are only ever assigned such values), else None"""
         k = v[0]
@@ -1126,11 +1257,36 @@ class Interp:
             return {"list": list, "set": set, "dict": dict}.get(v[1])
         if k == "call" and v[1][0] == "glob" and v[1][1].startswith("ext:builtins.") and v[1][1].split(".")[-1] in self.BUILTIN_TYPES:
             return self.BUILTIN_TYPES[v[1][1].split(".")[-1]]
-        if k == "call" and _depth < 2:
+        if k == "call" and _depth < 2 and _ann:
             cont, _elt = self._annotated_return(v, path)
             if cont is not None:
                 return cont
+        # text: str methods that return text, concatenation and %-formatting of text, json.dumps
+        if k == "call" and v[1][0] == "attr" and v[1][2] in self.STR_TO_STR and _text < 60 and self.type_of(v[1][1], path, _depth, _text + 1, _ann) is str:
+            return str
+        if k == "call" and v[1] in (("glob", "ext:json.dumps"), ("glob", "ext:builtins.repr"), ("glob", "ext:builtins.format"), ("glob", "ext:builtins.ascii")):
+            return str
+        if k == "binop" and _text < 60:
+            lt = self.type_of(v[2], path, _depth, _text + 1, _ann)
+            if v[1] == "%" and lt is str:
+                return str
+            if v[1] == "+" and lt in (str, tuple, list) and self.type_of(v[3], path, _depth, _text + 1, _ann) is lt:
+                return lt
+        # an earlier `assert isinstance(x, T)` / `if isinstance(x, T):` on this path
+        for fk, fv in path.facts.items():
+            if fv is True and fk[0] == "truthy" and fk[1][0] == "call" and fk[1][1] == ("glob", "ext:builtins.isinstance") and len(fk[1][2]) == 2 and fk[1][2][0] == v:
+                c = fk[1][2][1]
+                if c[0] == "glob" and c[1].startswith("ext:builtins.") and c[1].split(".")[-1] in self.BUILTIN_TYPES:
+                    return self.BUILTIN_TYPES[c[1].split(".")[-1]]
         fi = self._cur()
+        if not _ann and k in ("sym", "attr"):
+            # (structural facts only: *args / **kwargs)
+            a = fi.node.args if fi is not None else None
+            if k == "sym" and a is not None and a.vararg is not None and v[1] == a.vararg.arg and ("sym", v[1]) not in path.env:
+                return tuple
+            if k == "sym" and a is not None and a.kwarg is not None and v[1] == a.kwarg.arg and ("sym", v[1]) not in path.env:
+                return dict
+            return None
         if k == "sym" and fi is not None:
             a = fi.node.args
             if a.vararg is not None and v[1] == a.vararg.arg and ("sym", v[1]) not in path.env:
@@ -1143,6 +1299,12 @@ class Interp:
                 for x in f2.node.args.posonlyargs + f2.node.args.args + f2.node.args.kwonlyargs:
                     if x.arg == v[1] and x.annotation is not None and isinstance(x.annotation, ast.Name) and x.annotation.id in ("bool", "str", "int", "float", "bytes") and ("sym", v[1]) not in path.env:
                         return self.BUILTIN_TYPES[x.annotation.id]
+                    # ... or with a container type:  mapping: Dict[str, Any]  /  items: list
+                    if x.arg == v[1] and x.annotation is not None and ("sym", v[1]) not in path.env:
+                        head = x.annotation.value if isinstance(x.annotation, ast.Subscript) else x.annotation
+                        hn = (dotted(head) or "").split(".")[-1] if isinstance(head, (ast.Name, ast.Attribute)) else ""
+                        if hn in self.TYPING_CONTAINERS and hn not in ("Tuple", "tuple"):
+                            return self.TYPING_CONTAINERS[hn]
                 f2 = f2.parent
         if k == "attr" and v[1] == ("sym", "self") and _depth < 2:
             cur = fi
@@ -1173,10 +1335,28 @@ class Interp:
                         t = dict
                     elif isinstance(val, ast.Call) and dotted(val.func) in self.BUILTIN_TYPES:
                         t = self.BUILTIN_TYPES[dotted(val.func)]
+                    elif isinstance(val, (ast.SetComp, ast.ListComp, ast.DictComp)):
+                        t = {ast.SetComp: set, ast.ListComp: list, ast.DictComp: dict}[type(val)]
+                    elif isinstance(val, ast.IfExp):
+                        arms = set()
+                        for arm in (val.body, val.orelse):
+                            if isinstance(arm, ast.Call) and dotted(arm.func) in self.BUILTIN_TYPES:
+                                arms.add(self.BUILTIN_TYPES[dotted(arm.func)])
+                            elif isinstance(arm, (ast.Tuple, ast.List, ast.Dict, ast.Set, ast.SetComp, ast.ListComp, ast.DictComp)):
+                                arms.add({ast.Tuple: tuple, ast.List: list, ast.Dict: dict, ast.Set: set, ast.SetComp: set, ast.ListComp: list, ast.DictComp: dict}[type(arm)])
+                            else:
+                                arms.add(None)
+                        t = arms.pop() if len(arms) == 1 else None
                     kinds.add(t)
                 if stores and len(kinds) == 1 and None not in kinds:
                     return kinds.pop()
+        # the rule's scenario says so (a decide hook that answers isinstance(v, str) for this value)
+        if self.decide_hook is not None and k in ("sym", "bound", "item", "proj") and _text < 60 and _ann:
+            if self.decide_hook(self, path, ("call", ("glob", "ext:builtins.isinstance"), (v, ("glob", "ext:builtins.str")), (), 0)) is True:
+                return str
         return None
+
+    STR_TO_STR = frozenset("replace strip lstrip rstrip lower upper casefold title capitalize swapcase join format format_map center ljust rjust zfill expandtabs translate removeprefix removesuffix".split())
 
     TYPING_CONTAINERS = {"Set": set, "List": list, "Tuple": tuple, "Dict": dict, "FrozenSet": frozenset, "set": set, "list": list, "tuple": tuple, "dict": dict, "frozenset": frozenset}
 
@@ -1209,11 +1389,97 @@ class Interp:
             return None, None
         return self.TYPING_CONTAINERS.get((dotted(ann) or "").split(".")[-1]) if isinstance(ann, (ast.Name, ast.Attribute)) else None, None
 
+    def _annotated_field(self, attr):
+        """(container builtin type, element / value class qual) of `self.<attr>: Dict[K, C] = ...` in the current class"""
+        cls = self.func.cls if self.func is not None else None
+        if cls is None:
+            return None, None
+        key = (cls.qual, attr)
+        cache = self.program.__dict__.setdefault("_annotated_fields", {})
+        if key not in cache:
+            found = (None, None)
+            for q in cls.mro:
+                c = self.program.classes.get(q)
+                if c is None:
+                    continue
+                for fis in c.methods.values():
+                    for fi in fis:
+                        for n in ast.walk(fi.node):
+                            if isinstance(n, ast.AnnAssign) and isinstance(n.target, ast.Attribute) and n.target.attr == attr and dotted(n.target.value) == "self" and isinstance(n.annotation, ast.Subscript):
+                                ann = n.annotation
+                                head = (dotted(ann.value) or "").split(".")[-1]
+                                cont = self.TYPING_CONTAINERS.get(head)
+                                elt = ann.slice
+                                if isinstance(elt, ast.Tuple) and elt.elts:
+                                    elt = elt.elts[-1] if cont is dict else elt.elts[0]
+                                qq = self.program.resolve(fi.module, elt) if isinstance(elt, (ast.Name, ast.Attribute)) else None
+                                if cont is not None and qq in self.program.classes:
+                                    found = (cont, qq)
+            cache[key] = found
+        return cache[key]
+
+    def _module_partial(self, qual):
+        """the partial(...) term a module-level name stands for when it is bound exactly once, at top level, to
+        functools.partial over a package function and literal arguments; else None"""
+        cache = self.program.__dict__.setdefault("_module_partials", {})
+        if qual in cache:
+            return cache[qual]
+        cache[qual] = None
+        mname, _, nm = qual.partition(":")
+        mod = self.program.modules.get(mname)
+        st = mod.defs.get(nm) if mod is not None and "." not in nm else None
+        v = getattr(st, "value", None)
+        if st is None or st not in mod.tree.body or not isinstance(v, ast.Call) or self.program.resolve(mod, v.func) != "ext:functools.partial" or not v.args:
+            return None
+        binds = [n for n in ast.walk(mod.tree) if isinstance(n, ast.Name) and n.id == nm and isinstance(n.ctx, (ast.Store, ast.Del))]
+        if len(binds) != 1 or any(isinstance(n, (ast.Global, ast.Nonlocal)) and nm in n.names for n in ast.walk(mod.tree)):
+            return None
+        g = self.program.resolve(mod, v.args[0])
+        if g is None or any(isinstance(a, ast.Starred) for a in v.args) or any(k.arg is None for k in v.keywords):
+            return None
+        try:
+            args = tuple(("const", ast.literal_eval(a)) for a in v.args[1:])
+            kws = tuple((k.arg, ("const", ast.literal_eval(k.value))) for k in v.keywords)
+        except Exception:
+            return None
+        cache[qual] = ("call", ("glob", "ext:functools.partial"), (("glob", g),) + args, kws, 0)
+        return cache[qual]
+
+    def _declared_field_type(self, attr):
+        """the qualified name T of `self.<attr>: T [= ...]` in the methods of the current class (and its bases)"""
+        cls = self.func.cls if self.func is not None else None
+        if cls is None:
+            return None
+        cache = self.program.__dict__.setdefault("_declared_fields", {})
+        key = (cls.qual, attr)
+        if key not in cache:
+            found = set()
+            for q in cls.mro:
+                c = self.program.classes.get(q)
+                if c is None:
+                    continue
+                for fis in c.methods.values():
+                    for fi in fis:
+                        for n in ast.walk(fi.node):
+                            if isinstance(n, ast.AnnAssign) and isinstance(n.target, ast.Attribute) and n.target.attr == attr and dotted(n.target.value) == "self" and isinstance(n.annotation, (ast.Name, ast.Attribute)):
+                                found.add(self.program.resolve(fi.module, n.annotation))
+            cache[key] = found.pop() if len(found) == 1 else None
+        return cache[key]
+
     def class_of_value(self, v, path):
-        """the package class an element certainly is an instance of: an item of a call annotated Set[C] / List[C] / ..."""
+        """the package class an element certainly is an instance of: an item of a call annotated Set[C] / List[C] / ...,
+        a value of a field annotated Dict[K, C] (annotations are trusted type facts)"""
+        v = strip_sites(v) if v[0] in ("sub", "item") else v
         if v[0] == "item":
             _cont, elt = self._annotated_return(v[1], path)
+            if elt is None and v[1][0] == "call" and v[1][1][0] == "attr" and v[1][1][2] == "values" and v[1][1][1][0] == "attr" and v[1][1][1][1] == SELF:
+                cont, elt = self._annotated_field(v[1][1][1][2])
+                if cont is not dict:
+                    elt = None
             return elt
+        if v[0] == "sub" and v[1][0] == "attr" and v[1][1] == SELF:
+            cont, elt = self._annotated_field(v[1][2])
+            return elt if cont in (dict, list, tuple) else None
         return None
 
     def truth(self, v, path) -> Optional[bool]:
@@ -1225,6 +1491,19 @@ class Interp:
             q = self.class_of_value(v[2][0], path)
             if q is not None:
                 return v[2][1][1] in self.program.classes[q].mro
+        # isinstance(p, T) for a parameter declared `p: T` that is not re-bound (annotations are trusted type facts)
+        if k == "call" and v[1] == ("glob", "ext:builtins.isinstance") and len(v[2]) == 2 and v[2][1][0] == "glob" and v[2][0][0] == "sym" and v[2][0] not in path.env:
+            f2 = self._cur()
+            while f2 is not None:
+                for x in f2.node.args.posonlyargs + f2.node.args.args + f2.node.args.kwonlyargs:
+                    if x.arg == v[2][0][1] and isinstance(x.annotation, (ast.Name, ast.Attribute)):
+                        if self.program.resolve(f2.module, x.annotation) == v[2][1][1] and not v[2][1][1].startswith("ext:builtins."):
+                            return True
+                f2 = f2.parent
+        # isinstance(self.f, T) for a field declared `self.f: T` (annotations are trusted type facts)
+        if k == "call" and v[1] == ("glob", "ext:builtins.isinstance") and len(v[2]) == 2 and v[2][1][0] == "glob" and v[2][0][0] == "attr" and v[2][0][1] == SELF:
+            if self._declared_field_type(v[2][0][2]) == v[2][1][1]:
+                return True
         # bool(x) is the truth of x
         if k == "call" and v[1] == ("glob", "ext:builtins.bool") and len(v[2]) == 1 and not v[3]:
             return self.truth(v[2][0], path)
@@ -1233,8 +1512,12 @@ class Interp:
             ty = self.type_of(v[2][0], path)
             c = v[2][1]
             names = [c] if c[0] != "tuple" else list(c[1])
-            if ty is not None and all(n[0] == "glob" and n[1].startswith("ext:builtins.") and n[1].split(".")[-1] in self.BUILTIN_TYPES for n in names):
-                return any(issubclass(ty, self.BUILTIN_TYPES[n[1].split(".")[-1]]) for n in names)
+            if ty is not None:
+                known = [n for n in names if n[0] == "glob" and n[1].startswith("ext:builtins.") and n[1].split(".")[-1] in self.BUILTIN_TYPES]
+                if any(issubclass(ty, self.BUILTIN_TYPES[n[1].split(".")[-1]]) for n in known):
+                    return True  # one matching class decides, whatever the others are
+                if len(known) == len(names):
+                    return False
         if k == "abs":
             return v[1] == "truthy"
         if k in ("exc", "lambda", "glob", "inst"):
@@ -1358,6 +1641,8 @@ class Interp:
         k = v[0]
         if k == "unop" and v[1] == "not":
             return self.assume(v[2], not truth, path)
+        if k == "call" and v[1] == ("glob", "ext:builtins.bool") and len(v[2]) == 1 and not v[3]:
+            return self.assume(v[2][0], truth, path)
         if k == "cmp":
             _c, op, l, r = v
             lt = self._len_test(op, l, r)
@@ -1727,6 +2012,8 @@ class Interp:
             concrete = None
             if v[0] in ("tuple", "list") and not any(x[0] == "star" for x in v[1]):
                 concrete = list(v[1])
+            elif v[0] == "const" and isinstance(v[1], (tuple, list)):
+                concrete = [("const", x) for x in v[1]]  # a literal default / module constant
             frontier = [p]
             i = 0
             while True:
@@ -1932,10 +2219,38 @@ class Interp:
         for e in elts:
             res = self.eval(e, path)
             v = res[0][2] if len(res) == 1 and res[0][0] == "value" else None
+            if v is not None and v[0] == "tuple" and all(x[0] == "glob" for x in v[1]):
+                names.extend(x[1] for x in v[1])  # a local / display of classes
+                continue
             if v is None or v[0] != "glob":
                 raise Undecided("handler type %s is not a resolvable class" % ast.unparse(e), h)
-            names.append(v[1])
+            group = self._module_class_tuple(v[1])
+            if group is not None:
+                names.extend(group)  # a module-level tuple of classes:  _CLOSED = (trio.Cancelled, trio.ClosedResourceError)
+            else:
+                names.append(v[1])
         return names
+
+    def _module_class_tuple(self, qual):
+        if ":" not in qual or qual.startswith("ext:") or qual in self.program.classes or qual in self.program.functions:
+            return None
+        cache = self.program.__dict__.setdefault("_class_tuples", {})
+        if qual in cache:
+            return cache[qual]
+        cache[qual] = None
+        mname, _, nm = qual.partition(":")
+        mod = self.program.modules.get(mname)
+        st = mod.defs.get(nm) if mod is not None and "." not in nm else None
+        v = getattr(st, "value", None)
+        if st is None or st not in mod.tree.body or not isinstance(v, ast.Tuple) or not v.elts or not all(isinstance(e, (ast.Name, ast.Attribute)) for e in v.elts):
+            return None
+        binds = [n for n in ast.walk(mod.tree) if isinstance(n, ast.Name) and n.id == nm and isinstance(n.ctx, (ast.Store, ast.Del))]
+        if len(binds) != 1 or any(isinstance(n, (ast.Global, ast.Nonlocal)) and nm in n.names for n in ast.walk(mod.tree)):
+            return None
+        out = [self.program.resolve(mod, e) for e in v.elts]
+        if all(q is not None and libfacts.is_exception_class(q, self.program) for q in out):
+            cache[qual] = out
+        return cache[qual]
 
     def exc_matches(self, raised, names) -> bool:
         if names is None:
